@@ -199,6 +199,13 @@ func MakeCase(in PipeIn, workdir string, caseNo int) Case {
 		if s.Missing {
 			add("missing-file")
 		}
+		if in.Cfg.Gunzip && !s.Missing {
+			if s.Gz {
+				add("gunzip:gzip-file")
+			} else {
+				add("gunzip:plain-file")
+			}
+		}
 		if len(b) > 0 && b[len(b)-1] != '\n' {
 			add("no-trailing-newline")
 		}
@@ -406,6 +413,7 @@ func GenC01(r *Rng, n int, tier string) []PipeIn {
 			in.Sources = []Source{{Name: "<stdin>", Stream: hex.EncodeToString(stream), Script: sc}}
 		} else {
 			in.Cfg.Mode = "files"
+			in.Cfg.Gunzip = r.Chance(1, 4) // -z: gzip files decoded (compress/gzip is an oracle), plain files read from their first byte
 			ns := 1 + r.Intn(6)
 			for i := 0; i < ns; i++ {
 				s := Source{Name: fmt.Sprintf("f%d.log", i)}
@@ -413,6 +421,7 @@ func GenC01(r *Rng, n int, tier string) []PipeIn {
 					s.Missing = true
 				} else {
 					s.Stream = hex.EncodeToString(genStream(r, r.Intn(maxLines+1), func() []byte { return genLine(r, 12) }))
+					s.Gz = in.Cfg.Gunzip && r.Bool()
 				}
 				in.Sources = append(in.Sources, s)
 			}
@@ -489,9 +498,10 @@ func GenC02(r *Rng, n int, tier string) []PipeIn {
 			in.Sources = []Source{{Name: "<stdin>", Stream: hex.EncodeToString(stream), Script: genScript(r, stream)}}
 		} else {
 			in.Cfg.Mode = "files"
+			in.Cfg.Gunzip = r.Chance(1, 5)
 			ns := 1 + r.Intn(4)
 			for i := 0; i < ns; i++ {
-				in.Sources = append(in.Sources, Source{Name: fmt.Sprintf("in%d.txt", i), Stream: hex.EncodeToString(genStream(r, r.Intn(maxLines+1), mk))})
+				in.Sources = append(in.Sources, Source{Name: fmt.Sprintf("in%d.txt", i), Stream: hex.EncodeToString(genStream(r, r.Intn(maxLines+1), mk)), Gz: in.Cfg.Gunzip && r.Bool()})
 			}
 		}
 		ins = append(ins, in)
